@@ -2,7 +2,7 @@
   Props/C08.lean — operator overrides and pass-through modes do exactly what they say.
 -/
 import CircuitProofs.Props.CircuitCommon
-import CircuitProofs.Lemmas.Circuit
+import CircuitProofs.Lemmas.CircuitB
 namespace CM.Props.C08
 open CM CM.SpecCircuit CM.Props
 
@@ -12,19 +12,78 @@ open CM CM.SpecCircuit CM.Props
     returned, no events, no fallback. -/
 theorem c08_holds {σo σc : Type} (O : OpenerI σo) (C : CloserI σc) (c : Circ σo σc) (hq : Quiescent c) (op : ExecOp) :
     verdictC08 c.cfg (isOpenEff c) (actualPrevent O c) op (execObs O C c op) = none := by
-  sorry
+  have htr := (tr_execute O C c op.ctx op.run op.fb).from_empty
+  obtain ⟨hcfg, -, -, hfcl⟩ := htr
+  cases hd : c.cfg.disabled with
+  | true =>
+    apply verdictC08_disabled _ hd
+    intro sc hsc
+    show (mkObs (execute O C c op.ctx op.run op.fb).1 (execute O C c op.ctx op.run op.fb).2.1
+        (execute O C c op.ctx op.run op.fb).2.2 op).runCalls = 1 ∧
+      (∃ s, (mkObs (execute O C c op.ctx op.run op.fb).1 (execute O C c op.ctx op.run op.fb).2.1
+        (execute O C c op.ctx op.run op.fb).2.2 op).seen = some s ∧ s.sameAsCaller = true) ∧
+      (mkObs (execute O C c op.ctx op.run op.fb).1 (execute O C c op.ctx op.run op.fb).2.1
+        (execute O C c op.ctx op.run op.fb).2.2 op).fbCalls = 0 ∧
+      (mkObs (execute O C c op.ctx op.run op.fb).1 (execute O C c op.ctx op.run op.fb).2.1
+        (execute O C c op.ctx op.run op.fb).2.2 op).emits = [] ∧
+      (mkObs (execute O C c op.ctx op.run op.fb).1 (execute O C c op.ctx op.run op.fb).2.1
+        (execute O C c op.ctx op.run op.fb).2.2 op).res = _
+    rw [hsc, execute_disabled_some O C c hd]
+    refine ⟨rfl, ⟨_, rfl, rfl⟩, rfl, rfl, ?_⟩
+    show (match sc.act with
+      | .panic v => Res.panic v
+      | _ => Res.ret (actValue sc (ctxErrAfter op.ctx sc))) = _
+    unfold runValue
+    rw [hsc]
+    rfl
+  | false =>
+    have hrun : op.run.isSome = true → ∃ sc, op.run = some sc := by
+      intro h
+      cases hr : op.run with
+      | none => rw [hr] at h; cases h
+      | some sc => exact ⟨sc, rfl⟩
+    cases hfo : c.cfg.forceOpen with
+    | true =>
+      apply verdictC08_forceOpen _ hd hfo
+      · simp [isOpenEff, hfo]
+      · show isOpenEff (execute O C c op.ctx op.run op.fb).1 = true
+        simp [isOpenEff, hcfg, hfo]
+      · intro hrs
+        obtain ⟨sc, hsc⟩ := hrun hrs
+        show (if (execute O C c op.ctx op.run op.fb).2.1.runSeen.isSome = true then 1 else 0) = 0
+        rw [hsc, execute_shed_runSeen O C c hd op.ctx sc op.fb (actualAdmission_forceOpen C c hfo)]
+        rfl
+    | false =>
+      cases hfc : c.cfg.forcedClosed with
+      | false =>
+        unfold verdictC08
+        simp [hd, hfo, hfc]
+      | true =>
+        have hclosed : isOpenEff c = false := by simp [isOpenEff, hfo, hfc]
+        apply verdictC08_forcedClosed _ hd hfo hfc
+        · exact hclosed
+        · show isOpenEff (execute O C c op.ctx op.run op.fb).1 = false
+          simp [isOpenEff, hcfg, hfo, hfc]
+        · exact notifs_no_true _ (hfcl hfc).1
+        · intro hrs hmc hpv
+          obtain ⟨sc, hsc⟩ := hrun hrs
+          have hth : ¬ (c.cfg.maxConc ≥ 0 ∧ c.conc + 1 > c.cfg.maxConc) := by
+            rw [hq.1]; omega
+          show (if (execute O C c op.ctx op.run op.fb).2.1.runSeen.isSome = true then 1 else 0) ≠ 0
+          rw [hsc, execute_invoked_runSeen O C c hd op.ctx sc op.fb (actualAdmission_of_closed C c hclosed) hpv hth]
+          decide
 
 /-- ForceOpen wins when both are set; clearing both resumes the underlying state; changing overrides never touches
     the underlying state -/
 theorem forceOpen_wins {σo σc : Type} (c : Circ σo σc) (h : c.cfg.forceOpen = true) : isOpenEff c = true := by
-  sorry
+  simp [isOpenEff, h]
 theorem forcedClosed_reads_closed {σo σc : Type} (c : Circ σo σc) (h1 : c.cfg.forceOpen = false) (h2 : c.cfg.forcedClosed = true) :
     isOpenEff c = false := by
-  sorry
+  simp [isOpenEff, h1, h2]
 theorem clearing_resumes_underlying {σo σc : Type} (c : Circ σo σc) (cfg : LiveCfg)
     (h1 : cfg.forceOpen = false) (h2 : cfg.forcedClosed = false) :
     isOpenEff (setConfig c cfg) = c.isOpen ∧ (setConfig c cfg).isOpen = c.isOpen := by
-  sorry
+  simp [isOpenEff, setConfig, h1, h2]
 
 /-- while ForcedClosed is set nothing opens the circuit: no operation other than a reconfiguration delivers an
     Opened notification or sets the underlying flag -/
@@ -32,14 +91,32 @@ theorem forcedClosed_blocks_opening {σo σc : Type} (O : OpenerI σo) (C : Clos
     (h : c.cfg.forcedClosed = true) (op : CircOp σo σc) (hop : ∀ cfg, op ≠ .setcfg cfg) :
     let r := stepOp O C c op
     (∀ t, Emit.opened t ∉ r.2) ∧ (r.1.isOpen = true → c.isOpen = true) := by
-  sorry
+  intro r
+  cases op with
+  | exec eop =>
+    have h4 := (tr_execute O C c eop.ctx eop.run eop.fb).from_empty.2.2.2 h
+    exact h4
+  | openC =>
+    have h4 := (tr_manualOpen O C c).from_empty.2.2.2 h
+    exact h4
+  | closeC =>
+    have h4 := (tr_manualClose O C c).from_empty.2.2.2 h
+    exact h4
+  | setcfg cfg => exact absurd rfl (hop cfg)
+  | tick d => exact ⟨fun t ht => (by cases ht), fun h => h⟩
+  | env f g => exact ⟨fun t ht => (by cases ht), fun h => h⟩
 
 /-- an override is in force for every call that starts after SetConfigThreadSafe returned: the very next call after
     `setcfg` with ForceOpen is rejected without running -/
 theorem override_effective_immediately {σo σc : Type} (O : OpenerI σo) (C : CloserI σc) (c : Circ σo σc) (cfg : LiveCfg)
     (hfo : cfg.forceOpen = true) (hdis : cfg.disabled = false) (op : ExecOp) :
     (execute O C (setConfig c cfg) op.ctx op.run op.fb).2.1.runSeen = none := by
-  sorry
+  cases hr : op.run with
+  | none =>
+    rw [execute_runSeen O C _ hdis]
+    rfl
+  | some sc =>
+    exact execute_shed_runSeen O C _ hdis op.ctx sc op.fb (actualAdmission_forceOpen C _ hfo)
 
 example : (execute openerI closerI ({ cfg := { disabled := true }, isOpen := true, opener := .never, closer := .never } : Circ OState CState) {}
     (some { act := .ret (some (.plain 3 false)) }) (some { act := .ret none })).2.2 = .ret (some (.plain 3 false)) := by decide
